@@ -130,10 +130,10 @@ int main(int argc, char** argv)
 	int fd = open("/dev/null", O_WRONLY);
 	dup2(fd, 2);
 	std::vector<unsigned> orders;
-	unsigned nfull = mc::thorough() ? 512 : 128;
+	unsigned nfull = mc::thorough() ? 1024 : 128;
 	for(unsigned n = 1; n <= nfull; n++) orders.push_back(n);
 	if(mc::quick()) for(unsigned n : {255u, 256u, 511u, 512u}) orders.push_back(n);
-	else for(unsigned n : {768u, 1000u, 1023u, 1024u, 2000u, 2047u, 3000u, 4000u}) orders.push_back(n);
+	else for(unsigned n : {1500u, 2000u, 2047u, 2048u, 3000u, 4000u}) orders.push_back(n);
 	std::vector<std::pair<double, double>> ivs = {{-1, 1}, {0, 1}, {2, 7}, {-1e3, 1e-3}, {1e6, 1e6 + 1}, {1, -1}, {7, 2}};
 	mc::alphabet("orders", orders.size());
 	mc::alphabet("intervals", ivs.size());
